@@ -12,7 +12,7 @@ executed with the per-instruction trace hook (H7); every recorded
 (function, pc, runtime depth, live handlers) point must be a state the abstract
 machine computed for that pc.
 """
-import time
+import time, itertools
 from vlib.engine import Check, Verdict, explore
 from vlib import report, corpus, spaces, bcv, runner as R
 
@@ -179,23 +179,23 @@ def tryexit():
         "deep_expr": "acc = acc + [[1, 2, [3, 4, [5, 6, [7, 8, [9]]]]]].len() + pick(1, 2, 3, pick(4, 5, 6, pick(7, 8, 9, 10)))%s;",
         "nested_try_deep": "try { raise Error('n'); } catch e2: Error { let c1 = 1; let c2 = [c1, [c1, [c1]]]; acc = acc + pick(c1, c2.len(), e.message.len(), pick(1, 2, 3, e2.message.len()))%s; }",
     }
-    for loop in ("while", "for"):
-        for nl in (0, 1, 2, 3):
-            for nt in (0, 1, 2):
-                for ex, extext in exits.items():
-                    for cname, ctext in catches.items():
+    wraps = {"": ("", ""), "/in_try": ("try { ", " } catch o1: Error { acc = acc + 7; }"),
+             "/in_two_tries": ("try { let w1 = 1; try { ", " } catch o1: Error { acc = acc + 7; } } catch o2: Error { acc = acc + 8; }")}
+    for loop, nl, nt, (ex, extext), (cname, ctext), (wname, (wpre, wpost)) in itertools.product(("while", "for"), (0, 1, 2, 3), (0, 1, 2), exits.items(), catches.items(), wraps.items()):
+                        if wname and (nl in (1, 3) or nt == 2 or cname.startswith("deep") or cname.endswith("deep")):
+                            continue   # the try wrapped in one / two outer tries inside the loop body: a reduced product
                         ll = "".join("let a%d = %d; " % (k, k + 1) for k in range(nl))
                         tl = "".join("let t%d = %d; " % (k, k + 5) for k in range(nt))
                         uses = "".join(" + a%d" % k for k in range(nl))
                         cbody = ctext % uses if "%s" in ctext else ctext
                         head = "let i = 0; while i < 2 { i = i + 1; " if loop == "while" else "for i in 2.times() { "
-                        fn = ("fn pick(a, b, c, d) { return a + d; }\nfn f(fail) { let acc = 0; %s%stry { %sif fail { raise Error('first'); } %s } catch e: Error { %s } acc = acc + 1000%s; } return acc; }\n"
-                              % (head, ll, tl, extext, cbody, uses))
-                        name = "%s/locals%d/trylocals%d/%s/%s" % (loop, nl, nt, ex, cname)
+                        fn = ("fn pick(a, b, c, d) { return a + d; }\nfn f(fail) { let acc = 0; %s%s%stry { %sif fail { raise Error('first'); } %s } catch e: Error { %s }%s acc = acc + 1000%s; } return acc; }\n"
+                              % (head, ll, wpre, tl, extext, cbody, wpost, uses))
+                        name = "%s/locals%d/trylocals%d/%s/%s%s" % (loop, nl, nt, ex, cname, wname)
                         out.append(("tryexit", "direct/" + name, fn + "try { print(f(false)); } catch e { print('u', e.message); }\ntry { print(f(true)); } catch e { print('u', e.message); }\nprint('done');\n"))
                         out.append(("tryexit", "fiber/" + name, fn + "let c = chan(2);\nfn w(c, fail) { let r = nil; try { r = f(fail); } catch e { r = e.message; } c <- r; }\nlaunch w(c, false);\nlaunch w(c, true);\nprint(<- c);\nprint(<- c);\n"
-                                    "fn g(c) { let acc = 0; %s%stry { %sif acc == 0 { raise Error('first'); } %s } catch e: Error { %s } acc = acc + 1000%s; } c <- acc; }\nlaunch g(c);\nprint(<- c);\n"
-                                    % (head, ll, tl, extext if ex != "return" else "c <- 7; return;", cbody, uses)))
+                                    "fn g(c) { let acc = 0; %s%s%stry { %sif acc == 0 { raise Error('first'); } %s } catch e: Error { %s }%s acc = acc + 1000%s; } c <- acc; }\nlaunch g(c);\nprint(<- c);\n"
+                                    % (head, ll, wpre, tl, extext if ex != "return" else "c <- 7; return;", cbody, wpost, uses)))
     return out
 
 
